@@ -57,7 +57,8 @@ def short(case):
     return {"model": case["model"], "degree": case.get("degree"), "n": len(case["x"]),
             "sx": case["sx"], "sy": case["sy"], "xrange": case["xrange"], "form": case["form"],
             "noise_free": case["noise_free"], "units(x,y)": case.get("scale", [1.0, 1.0]),
-            "x[:3]": case["x"][:3], "y[:3]": case["y"][:3]}
+            "x[:3]": case["x"][:3], "y[:3]": case["y"][:3],
+            **({"callable": case["callable"]} if case.get("callable") else {})}
 
 
 def tag(case):
@@ -104,6 +105,13 @@ def scenario_counts(c, dist):
         dist["repeated-measurements:" + R["how"]] += 1
     if c.get("signs"):
         dist["parameter-branch:{}:{}".format(c["model"], c["signs"])] += 1
+    if c["model"].startswith("custom:"):
+        dist["user-callable:" + G.callable_tag(c)] += 1
+        if c["model"] in G.POLY_LIKE:
+            dist["user-model-is-a-polynomial-in-another-parameter-order"] += 1
+            nm = (c.get("callable") or {}).get("name")
+            if nm in G.PRESET_POLY:
+                dist["user-polynomial-named-like-a-preset-polynomial"] += 1
 
 
 def fail(sig, what, case, **kw):
